@@ -303,7 +303,16 @@ func decideValue(dm *model.DecisionMaker, trace bool) (res map[string]interface{
 	decision := dm.MakeDecision(fs, biasListeners, bm, utils.RandomBasedSeedValueGenerator)
 	b, err := json.Marshal(decision)
 	if err != nil {
-		return map[string]interface{}{"ok": false, "err": "marshal: " + err.Error(), "kind": "marshal"}
+		// the decision cannot be carried by JSON (NaN / Inf): the service answers 400; the traced stages are still reported
+		res = map[string]interface{}{"ok": false, "err": "marshal: " + err.Error(), "kind": "marshal"}
+		if trace {
+			res["stages"] = finishStages(stages)
+			res["requestUnchanged"] = reflect.DeepEqual(reqBefore, dump(dm))
+			if len(evalInputs) > 0 {
+				res["evalInput"] = evalInputs[0]
+			}
+		}
+		return res
 	}
 	res = map[string]interface{}{"ok": true, "resp": json.RawMessage(b)}
 	if trace {
